@@ -339,6 +339,19 @@ func (g *gen) inject(pos token.Pos, name string, sig *types.Signature, set *Prov
 			fmt.Errorf("inject %s: %v", name, err))}
 	}
 	params := sig.Params()
+	// The signature is written out from the types the checker reports, with
+	// aliases already replaced by what they stand for; what it then mentions
+	// must be something this package can name.
+	for i := 0; i < params.Len(); i++ {
+		if err := writableFrom(params.At(i).Type(), g.pkg.Types); err != nil {
+			return []error{notePosition(g.pkg.Fset.Position(pos),
+				fmt.Errorf("inject %s: type of parameter %d, %s, cannot be written in package %s: %v", name, i+1, types.TypeString(params.At(i).Type(), nil), g.pkg.PkgPath, err))}
+		}
+	}
+	if err := writableFrom(injectSig.out, g.pkg.Types); err != nil {
+		return []error{notePosition(g.pkg.Fset.Position(pos),
+			fmt.Errorf("inject %s: result type %s cannot be written in package %s: %v", name, types.TypeString(injectSig.out, nil), g.pkg.PkgPath, err))}
+	}
 	calls, errs := solve(g.pkg.Fset, injectSig.out, params, set)
 	if len(errs) > 0 {
 		return mapErrors(errs, func(e error) error {
@@ -1152,6 +1165,79 @@ func implicitUnexportedField(info *types.Info, lit *ast.CompositeLit, wantPkg st
 	for i := 0; i < st.NumFields(); i++ {
 		if f := st.Field(i); !f.Exported() && f.Pkg() != nil && f.Pkg().Path() != wantPkg {
 			return f
+		}
+	}
+	return nil
+}
+
+// writableFrom reports why the type expression for t cannot appear in package
+// from: it would mention an unexported name or an unexported field or method
+// of another package, or a package that from may not import. Such a type can
+// get into the signature of an injector only through a type alias.
+func writableFrom(t types.Type, from *types.Package) error {
+	foreign := func(obj types.Object) bool {
+		return obj.Pkg() != nil && obj.Pkg().Path() != from.Path() && !obj.Exported()
+	}
+	switch t := t.(type) {
+	case *types.Named:
+		obj := t.Obj()
+		if foreign(obj) {
+			return fmt.Errorf("%s.%s is not exported", obj.Pkg().Path(), obj.Name())
+		}
+		if obj.Pkg() != nil && !importableFrom(obj.Pkg().Path(), from.Path()) {
+			return fmt.Errorf("%s is an internal package", obj.Pkg().Path())
+		}
+		if args := t.TypeArgs(); args != nil {
+			for i := 0; i < args.Len(); i++ {
+				if err := writableFrom(args.At(i), from); err != nil {
+					return err
+				}
+			}
+		}
+	case *types.Pointer:
+		return writableFrom(t.Elem(), from)
+	case *types.Slice:
+		return writableFrom(t.Elem(), from)
+	case *types.Array:
+		return writableFrom(t.Elem(), from)
+	case *types.Chan:
+		return writableFrom(t.Elem(), from)
+	case *types.Map:
+		if err := writableFrom(t.Key(), from); err != nil {
+			return err
+		}
+		return writableFrom(t.Elem(), from)
+	case *types.Signature:
+		for _, tuple := range []*types.Tuple{t.Params(), t.Results()} {
+			for i := 0; i < tuple.Len(); i++ {
+				if err := writableFrom(tuple.At(i).Type(), from); err != nil {
+					return err
+				}
+			}
+		}
+	case *types.Struct:
+		for i := 0; i < t.NumFields(); i++ {
+			if f := t.Field(i); foreign(f) {
+				return fmt.Errorf("field %s belongs to package %s", f.Name(), f.Pkg().Path())
+			}
+			if err := writableFrom(t.Field(i).Type(), from); err != nil {
+				return err
+			}
+		}
+	case *types.Interface:
+		for i := 0; i < t.NumExplicitMethods(); i++ {
+			m := t.ExplicitMethod(i)
+			if foreign(m) {
+				return fmt.Errorf("method %s belongs to package %s", m.Name(), m.Pkg().Path())
+			}
+			if err := writableFrom(m.Type(), from); err != nil {
+				return err
+			}
+		}
+		for i := 0; i < t.NumEmbeddeds(); i++ {
+			if err := writableFrom(t.EmbeddedType(i), from); err != nil {
+				return err
+			}
 		}
 	}
 	return nil
